@@ -51,7 +51,7 @@ int main(int argc, char** argv) {
     // distribution of one step: enumerate and check probabilities
     ChoiceStats st;
     RunFn rf = [&](const std::vector<uint64_t>& tape, uint64_t fill) {
-      Walk::State s; s.x = 0; s.steps = 0; Tape t; t.v = tape; t.raw_fill = fill;
+      Walk::State s; s.x = 0; s.steps = 0; Tape t; t.v = tape; t.set_fill(fill);
       { TapeScope sc(t); w.apply(s, 0, nullptr); }
       RunResult r; r.kinds = t.kinds; r.seg = t.seg; r.canon = std::to_string(s.x); return r;
     };
